@@ -65,18 +65,21 @@ Patterns == <<
 \* and only if a key is needed at all (a disabled cache never builds one)
 Hashable(p) == p # 17
 
+\* beyond the table: pattern p > 17 is f(p), one more distinct int key each (caches larger than the table)
+PatOf(p) == IF p \in 1..Len(Patterns) THEN Patterns[p] ELSE Pat(<<I(p)>>, <<>>)
+
 \* calling through instance i > 0 prepends the instance to the positional arguments
 \* (LRUAsyncBoundCallable.__call__, _lrucache.py:155-156)
 Obj(i) == [t |-> "obj", v |-> <<"obj", i>>]
-ArgsOf(p, i) == IF i = 0 THEN Patterns[p].args ELSE <<Obj(i)>> \o Patterns[p].args
+ArgsOf(p, i) == IF i = 0 THEN PatOf(p).args ELSE <<Obj(i)>> \o PatOf(p).args
 Vals(p, n) == [i \in 1..Len(ArgsOf(p, n)) |-> ArgsOf(p, n)[i].v]
 Types(p, n) == [i \in 1..Len(ArgsOf(p, n)) |-> <<"type", ArgsOf(p, n)[i].t>>]
-KwItems(p) == [i \in 1..Len(Patterns[p].kw) |-> <<"kw", Patterns[p].kw[i].n, Patterns[p].kw[i].x.v>>]
-KwTypes(p) == [i \in 1..Len(Patterns[p].kw) |-> <<"type", Patterns[p].kw[i].x.t>>]
+KwItems(p) == [i \in 1..Len(PatOf(p).kw) |-> <<"kw", PatOf(p).kw[i].n, PatOf(p).kw[i].x.v>>]
+KwTypes(p) == [i \in 1..Len(PatOf(p).kw) |-> <<"type", PatOf(p).kw[i].x.t>>]
 
 \* the cache key of call pattern p  [_lrucache.py:309-318]
 KeyOf(p, n) ==
-  LET kw == Patterns[p].kw
+  LET kw == PatOf(p).kw
       base == IF kw = <<>> THEN Vals(p, n) ELSE Vals(p, n) \o <<<<"kwmark">>>> \o KwItems(p) IN
   IF Typed THEN <<"seq", base \o (IF kw = <<>> THEN Types(p, n) ELSE Types(p, n) \o KwTypes(p))>>
   ELSE IF Len(base) = 1 /\ kw = <<>> /\ ArgsOf(p, n)[1].t \in {"int", "str"}
